@@ -1,4 +1,4 @@
-import MpVerif.C08.LemmasWalk
+import MpVerif.C08.LemmasReader
 /-!
 # C08 — property theorems
 
@@ -537,6 +537,55 @@ theorem C08_gen_namefile_removed :
   refine ⟨by decide, ?_, ?_, fun _ => rfl, fun _ _ => rfl⟩
   · intro cnt; simp [sfwRemoves]
   · intro cnt h b; simp [sfwRemoves, h]
+
+/-- THE READER SIDE, generated: `NLProblemBuilder<Problem>::AddVariables` (include/mp/nl-reader.h, incl. its header
+consistency checks and `MP_ASSERT_ALWAYS`s) run on the header the model writes never throws, and the `is_var_int_` vector
+its `AddVars` calls build (`varTypesOf`: vector resize semantics of `BasicProblem::AddVars`) is the model's `decodeIsInt` at
+every position; hence (with `C08_types`) the real reader's rule gives every caller column its own integrality at `vperm j` -/
+theorem C08_gen_reader_types (m : MatrixModel) (text : Bool) (flags : Nat) :
+    (addVariables m.n 0 (nlvo m) 0 (nbv m) (niv m) 0 0 (nlvoi m)).map varTypesOf =
+      some ((List.range m.n).map (decodeIsInt (header m text flags))) ∧
+    ∃ tys, (addVariables m.n 0 (nlvo m) 0 (nbv m) (niv m) 0 0 (nlvoi m)).map varTypesOf = some tys ∧
+      tys.length = m.n ∧ ∀ j, j < m.n → tys.getD (vperm m j) false = isInt m j := by
+  obtain ⟨hb, hs⟩ := header_counts_consistent m
+  have h := addVariables_easy m.n (nlvo m) (nlvoi m) (nbv m) (niv m) hb hs
+  rw [blocks_eq_decode _ _ _ _ _ hb hs] at h
+  have hd : (fun pos => if m.n - (nbv m + niv m) ≤ pos then true else decide (nlvo m - nlvoi m ≤ pos) && decide (pos < nlvo m)) =
+      decodeIsInt (header m text flags) := by
+    funext pos; rfl
+  rw [hd] at h
+  refine ⟨h, _, h, by simp, ?_⟩
+  intro j hj
+  rw [getD_map_range _ _ _ (vperm_lt m hj)]
+  exact C08_types m text flags j hj
+
+/-- the model's `readable` (does the reader accept the `sum` node the feeder writes) is the GENERATED arity test of
+`NLReader::ReadNumArgs` with the generated default minimum `MIN_ITER_ARGS`; with `C08_readable` the generated test never fails on
+what the (padded) writer produces.  That the `sum` case of `ReadNumericExpr` calls `ReadNumArgs()` with the default is sampled. -/
+theorem C08_gen_readable (m : MatrixModel) :
+    readable m = (decide (m.Q.nnz = 0) || !readNumArgsFails (sumArity m) minIterArgs) ∧
+    (m.Q.nnz ≠ 0 → readNumArgsFails (sumArity m) minIterArgs = false) := by
+  have h : (!readNumArgsFails (sumArity m) minIterArgs) = decide (3 ≤ sumArity m) := by
+    unfold readNumArgsFails minIterArgs
+    by_cases h3 : 3 ≤ sumArity m
+    · have : ¬ ((sumArity m : Int) < 3) := by omega
+      simp [h3, this]
+    · have : ((sumArity m : Int) < 3) := by omega
+      simp [h3, this]
+  constructor
+  · unfold readable; rw [h]
+  · intro hn
+    have hr := C08_readable m
+    unfold readable at hr
+    simp only [Bool.or_eq_true, decide_eq_true_eq, hn, false_or] at hr
+    have : decide (3 ≤ sumArity m) = true := by simpa using hr
+    rw [← h] at this
+    simpa using this
+
+/-- instance: the header of the library's 6-variable MIQP (nlvo 3, nlvoi 1, nbv 1, niv 1) -/
+example : (addVariables 6 0 3 0 1 1 0 0 1).map varTypesOf = some [false, false, true, false, true, true] := by decide
+/-- an inconsistent header (more nonlinear variables than variables) makes the generated reader throw -/
+example : addVariables 2 0 3 0 0 0 0 0 2 = none := by decide
 
 end Gen
 
